@@ -2,7 +2,7 @@ SPECIFICATION Spec
 CONSTANTS
   Period = 3
   LastLens = {1, 2, 9, 17, 4095, 4096}
-  MaxChunks = 3
+  MaxChunks = 2
   LitRuns = {1, 2, 7, 8, 9, 16}
   MaxToksPerChunk = 4
 INVARIANTS Aligned SizesOK Dump
